@@ -547,7 +547,13 @@ func (ie IndexExpression) PrettyPrint(out *PrintState) *PrintState {
 	if needParen {
 		out.Print("(")
 	}
-	ie.Left.PrettyPrint(out)
+	if ie.Token.Type() == token.DOT && ie.Left.Value().Type() == token.INT {
+		out.Print("(") // (1).k, as 1.k would lex as the float 1. followed by k.
+		ie.Left.PrettyPrint(out)
+		out.Print(")")
+	} else {
+		ie.Left.PrettyPrint(out)
+	}
 	out.Print(ie.Literal())
 	out.ExpressionPrecedence = LOWEST
 	ie.Index.PrettyPrint(out)
